@@ -29,10 +29,10 @@ def pxC (name : String) : String := name ++ ".c"
 def pxS (name : String) : String := name ++ ".s"
 def pxR (name : String) : String := name ++ ".r"
 
-def KSt.pxAlloc (s : KSt) (name : String) (cb : PxCb) : KSt × Nat :=
+def KSt.pxAlloc (s : KSt) (name : String) (cb : PxCb) (ses : Nat := 0) : KSt × Nat :=
   let e := s.ext.proxy
   let h := pxBase + e.next % 100000
-  ({ s with ext := { s.ext with proxy := { e with ops := e.ops ++ [(h, name, cb)], next := e.next + 1 } } }, h)
+  ({ s with ext := { s.ext with proxy := { e with ops := e.ops ++ [(h, name, cb, ses)], next := e.next + 1 } } }, h)
 
 def KSt.pxSet (s : KSt) (name : String) (i : PxInst) : KSt :=
   let e := s.ext.proxy
@@ -67,11 +67,11 @@ def pxRunAct (p : KParams) (name : String) (a : Act) (s : KSt) : KSt :=
   | .accept =>
     let (s, h) := s.pxAlloc name .accept
     fx (s.net.accAsyncAccept now (pxL name) (.into h (pxC name) true)) s
-  | .readClient off cap =>
-    let (s, h) := s.pxAlloc name (.readReq off)
+  | .readClient off cap ses =>
+    let (s, h) := s.pxAlloc name (.readReq off) ses
     fx (s.net.tcpAsyncRead (pxC name) { h := h, caps := [cap] }) s
-  | .resolve host service =>
-    let (s, h) := s.pxAlloc name .lookup
+  | .resolve host service ses =>
+    let (s, h) := s.pxAlloc name .lookup ses
     match s.rs.lookup (pxR name) with
     | none => { s with bad := true }
     | some (node, r) =>
@@ -86,18 +86,24 @@ def pxRunAct (p : KParams) (name : String) (a : Act) (s : KSt) : KSt :=
         let (err, ips, lat) := (s.net.cfg.dns.lookup hostS).getD (Ec.hostNotFound, [], 100000000)
         let x := r.resolveName {} now err ips lat port h
         applyREffs p (pxR name) x.2 (s.setR (pxR name) x.1)
+  | .cancelResolver =>
+    match s.rs.lookup (pxR name) with
+    | none => s
+    | some (_, r) =>
+      let x := r.cancel
+      applyREffs p (pxR name) x.2 (s.setR (pxR name) x.1)
   | .openServer v4 => fx (s.net.tcpOpen now (pxS name) v4) s
-  | .connect addr port =>
-    let (s, h) := s.pxAlloc name .connected
+  | .connect addr port ses =>
+    let (s, h) := s.pxAlloc name .connected ses
     fx (s.net.tcpConnect now (pxS name) { addr := bytesToStr addr, port := port } h) s
-  | .writeServer data =>
-    let (s, h) := s.pxAlloc name .serverWrite
+  | .writeServer data ses =>
+    let (s, h) := s.pxAlloc name .serverWrite ses
     fx (s.net.tcpAsyncWrite (pxS name) { h := h, bufs := [data], stream := 0, off := 0 }) s
-  | .readServer =>
-    let (s, h) := s.pxAlloc name .serverRecv
+  | .readServer ses =>
+    let (s, h) := s.pxAlloc name .serverRecv ses
     fx (s.net.tcpAsyncRead (pxS name) { h := h, caps := [BUF] }) s
-  | .writeClient data k =>
-    let (s, h) := s.pxAlloc name (match k with | .forward => .serverFwd | .closeConn => .errWritten)
+  | .writeClient data k ses =>
+    let (s, h) := s.pxAlloc name (match k with | .forward => .serverFwd | .closeConn => .errWritten) ses
     cwStart p (pxC name) data h s
   | .closeClient => fx (s.net.tcpClose now (pxC name)) s
   | .closeServer => fx (s.net.tcpClose now (pxS name)) s
@@ -113,6 +119,7 @@ def pxRunAct (p : KParams) (name : String) (a : Act) (s : KSt) : KSt :=
       let s := applyREffs p (pxR name) x.2 (s.setR (pxR name) x.1)
       let s := applyNEffs p netFuel [.cancelTimer (pxR name) 0] s
       { s with rs := s.rs.filter (·.1 != pxR name) }
+  | .queued _ => s      -- ghost
   | .ub what => ({ s with bad := true }).emit ("X model: undefined behaviour in http_proxy: " ++ what)
 
 def pxRunActs (p : KParams) (name : String) (acts : List Act) (s : KSt) : KSt :=
@@ -191,29 +198,28 @@ def pxInternal (p : KParams) (h : Nat) (ec : Ec) (extra : String) (data : List U
   if h < pxBase || h ≥ pxBase + 100000 then none else
   match s.ext.proxy.ops.lookup h with
   | none => some { s with bad := true }
-  | some (name, cb) =>
+  | some (name, cb, ses) =>
     let e := s.ext.proxy
     let s := { s with ext := { s.ext with proxy := { e with ops := e.ops.filter (·.1 != h) } } }
     match e.objs.lookup name with
     | none => some { s with bad := true }
     | some inst =>
       if inst.dead then
-        -- the handler is bound to a destroyed object: `operation_aborted` makes every socket
-        -- callback return before it touches a member; `on_domain_lookup` and the
-        -- `close_connection` bound to the error response have no such guard
-        if ec == Ec.aborted && cb != .lookup && cb != .errWritten then some s
+        -- the handler is bound to a destroyed object: `operation_aborted` makes every
+        -- callback return before it touches a member
+        if ec == Ec.aborted then some s
         else some (({ s with bad := true }).emit "X model: http_proxy callback on a destroyed object")
       else
         let n := (findNat? (extra.splitOn " ") "n").getD 0
         let r := match cb with
           | .accept => onAccept inst.px ec
-          | .readReq off => onReadRequest pxLit inst.px ec off data
-          | .lookup => onDomainLookup inst.px ec (pxParseRes extra)
-          | .connected => onConnected inst.px ec
-          | .serverWrite => onServerWrite inst.px ec n
-          | .serverRecv => onServerReceive inst.px ec data
-          | .serverFwd => onServerForward inst.px ec
-          | .errWritten => closeConnection inst.px
+          | .readReq off => onReadRequest pxLit inst.px ses ec off data
+          | .lookup => onDomainLookup inst.px ses ec (pxParseRes extra)
+          | .connected => onConnected inst.px ses ec
+          | .serverWrite => onServerWrite inst.px ses ec n
+          | .serverRecv => onServerReceive inst.px ses ec data
+          | .serverFwd => onServerForward inst.px ses ec
+          | .errWritten => onErrorWritten inst.px ses ec
         some (pxApply p name inst r s)
 
 def proxyHooks : Hooks := { op := pxOp, internal := pxInternal }
